@@ -142,8 +142,21 @@ class _Env:
                 s.trace.append("handle_connection")
         self.Handler = Handler
 
+    def fresh(self):
+        """a new Block instance in the same AddonManager: every case starts without addon state, every call of one
+        history shares the instance"""
+        self.tctx.master.addons.remove(self.block)
+        self.block = block_mod.Block()
+        self.tctx.master.addons.add(self.block)
+        from mitmproxy import hooks
+        self.tctx.master.addons.invoke_addon_sync(self.block, hooks.ConfigureHook(set(self.tctx.options.keys())))
+
     def run(self, peer, mode, bg, bp):
-        self.tctx.options.update(block_global=bool(bg), block_private=bool(bp))
+        # only a real change is an option update (Options.update notifies `configure` even for unchanged values, which
+        # would hide state an addon keeps between two connections under the same options)
+        want = {"block_global": bool(bg), "block_private": bool(bp)}
+        diff = {k: v for k, v in want.items() if getattr(self.tctx.options, k) != v}
+        if diff: self.tctx.options.update(**diff)
         self.errors.clear()
         trace = []
         w = _Writer(peer, trace)
@@ -192,9 +205,12 @@ class Check(PropertyCheck):
             "constant in ipaddress, in 6 IPv4 notations (plain, ::ffff: dotted, ::ffff: hex, %zone, mapped+%zone, full "
             "mapped) / 5 IPv6 notations, crossed with the 4 option pairs and 9 proxy modes (quick: rotating subset of modes "
             "per address, both local and non-local always present); then random addresses inside random intervals and "
-            "mutated/raw peer texts. distinct = (peer text, mode, options); all are non-trivial.")
-    budget = {"quick": 20000, "thorough": 400000}
-    time_budget = {"quick": 20, "thorough": 480}
+            "mutated/raw peer texts. Histories: 2-6 client_connected calls on ONE Block instance and one AddonManager (every case "
+            "starts with a fresh instance) from the same address in the same / another spelling, the mode varying between "
+            "calls (systematically: local then another mode and the reverse, no option change in between) and the two options "
+            "toggled in between; every call is judged by the per-call oracle and compared with the stateless model. distinct = (peer text, mode, options); all are non-trivial.")
+    budget = {"quick": 12000, "thorough": 300000}
+    time_budget = {"quick": 13, "thorough": 480}
     fingerprints = ["mitmproxy.addons.block:Block.client_connected",
                     "mitmproxy.proxy.server:ConnectionHandler.handle_client",
                     "mitmproxy.proxy.mode_servers:ProxyConnectionHandler.handle_hook",
@@ -260,6 +276,7 @@ class Check(PropertyCheck):
         for t in texts:
             for mode in ("regular", "local"):
                 yield {"k": "raw", "peer_hex": hx(t), "mode": mode, "bg": 1, "bp": 1}
+        yield from self._systematic_histories(rng, thorough)
         pts = [(fam, n) for fam in (4, 6) for n in self._boundary_addrs(fam)]
         if not thorough:
             rng.shuffle(pts)    # a run cut short by the time budget still samples both families evenly
@@ -269,7 +286,9 @@ class Check(PropertyCheck):
             yield from self._expand(fam, n, rng, tier, thorough)
         while True:
             r = rng.random()
-            if r < 0.7:
+            if r < 0.25:
+                yield self._random_history(rng, cuts)
+            elif r < 0.75:
                 fam = rng.pick([4, 4, 6])
                 cs = cuts[fam]
                 i = rng.randrange(len(cs) - 1)
@@ -299,9 +318,59 @@ class Check(PropertyCheck):
                 yield {"k": "raw", "peer_hex": hx(bytes(b)), "mode": rng.pick(MODE_NAMES),
                        "bg": rng.randint(0, 1), "bp": rng.randint(0, 1)}
 
+    # representative addresses of every class: global, RFC 1918, loopback, shared space, link-local, IPv6 global / ULA /
+    # link-local / loopback / documentation
+    REPR = [(4, 0x08080808), (4, 0x0A000007), (4, 0xC0A80105), (4, 0xAC100001), (4, 0x7F000001), (4, 0x64400001),
+            (4, 0xA9FE0101), (4, 0xC6336401), (6, 1), (6, (0x2606 << 112) | (0x4700 << 96) | 0x1111),
+            (6, (0xFC00 << 112) | 1), (6, (0xFE80 << 112) | 1), (6, (0x2001 << 112) | (0xDB8 << 96) | 1)]
+
+    def _step(self, fam, n, note, mode, bg, bp, zone="eth0"):
+        c = {"k": "addr", "fam": fam, "n": str(n), "note": note, "mode": mode, "bg": bg, "bp": bp}
+        if "scoped" in note: c["zone"] = zone
+        return c
+
+    def _systematic_histories(self, rng, thorough):
+        """two connections from the same source on ONE Block instance without an option change in between: local mode
+        then another mode and the reverse order, same spelling and another spelling of the same address"""
+        others = [m for m in MODE_NAMES if m != "local"]
+        for fam, n in self.REPR:
+            notes = NOTES4 if fam == 4 else NOTES6
+            for bg in (0, 1):
+                for bp in (0, 1):
+                    for m in (others if thorough else [rng.pick(others), rng.pick(others)]):
+                        for n1, n2 in [(notes[0], notes[0]), (notes[1], notes[1]), (notes[0], rng.pick(notes[1:]))]:
+                            yield {"k": "hist", "steps": [self._step(fam, n, n1, "local", bg, bp),
+                                                           self._step(fam, n, n2, m, bg, bp)]}
+                            yield {"k": "hist", "steps": [self._step(fam, n, n1, m, bg, bp),
+                                                           self._step(fam, n, n2, "local", bg, bp)]}
+
+    def _random_history(self, rng, cuts):
+        def addr():
+            if rng.chance(0.6): return rng.pick(self.REPR)
+            fam = rng.pick([4, 4, 6]); cs = cuts[fam]; i = rng.randrange(len(cs) - 1)
+            return fam, rng.randint(cs[i], cs[i + 1] - 1)
+        fam, n = addr()
+        note = rng.pick(NOTES4 if fam == 4 else NOTES6)
+        bg, bp = rng.randint(0, 1), rng.randint(0, 1)
+        steps = []
+        for _ in range(rng.randint(2, 6)):
+            if steps and rng.chance(0.2): fam, n = addr(); note = rng.pick(NOTES4 if fam == 4 else NOTES6)
+            elif rng.chance(0.35): note = rng.pick(NOTES4 if fam == 4 else NOTES6)
+            if steps and rng.chance(0.3): bg, bp = rng.randint(0, 1), rng.randint(0, 1)
+            mode = "local" if rng.chance(0.4) else rng.pick(MODE_NAMES)
+            steps.append(self._step(fam, n, note, mode, bg, bp, rng.pick(ZONES)))
+        return {"k": "hist", "steps": steps}
+
     # ---------------- implementation ----------------
     def impl(self, case):
         e = env()
+        e.fresh()
+        if case["k"] == "hist":
+            # 2-6 connections handled by ONE Block instance / AddonManager, options toggled in between
+            return {"steps": [self._impl_step(e, st) for st in case["steps"]]}
+        return self._impl_step(e, case)
+
+    def _impl_step(self, e, case):
         peer = peer_text(case)
         h, w = e.run(peer, case["mode"], case["bg"], case["bp"])
         err = h.client.error
@@ -332,6 +401,12 @@ class Check(PropertyCheck):
         #  IPv4-mapped IPv6 and zone-scoped forms — is refused before any protocol processing, unless the source is a
         #  loopback address or the connection comes from local-redirect mode; with block_private enabled, the same holds
         #  for private source addresses. Connections from other addresses are not refused by these options."
+        if case["k"] == "hist":
+            # the verdict of each call depends only on that call's address class, mode and the options at that time
+            fails = []
+            for i, (st, o) in enumerate(zip(case["steps"], obs["steps"])):
+                fails += [f"call {i + 1} of {len(case['steps'])} on one Block instance: {f}" for f in self.oracle(st, o)]
+            return fails
         if case["k"] != "addr":
             return []
         fam, n = case["fam"], int(case["n"])
@@ -356,24 +431,49 @@ class Check(PropertyCheck):
 
     # ---------------- model tie ----------------
     def model_lines(self, case):
+        if case["k"] == "hist":
+            return [l for st in case["steps"] for l in self.model_lines(st)]
         return [f"decide {hx(peer_text(case).encode('utf-8', 'surrogateescape'))} {case['mode']} {case['bg']} {case['bp']}"]
 
     def model_obs(self, case, replies):
-        return replies[0]
+        # the Lean verdict is stateless: every call of a history is compared with the stateless model
+        return list(replies) if case["k"] == "hist" else replies[0]
 
     def impl_view(self, case, obs):
+        if case["k"] == "hist":
+            return [self.impl_view(st, o) for st, o in zip(case["steps"], obs["steps"])]
         return obs["verdict"] + " " + ",".join(obs["trace"])
 
     def classify(self, case, obs):
+        if case["k"] == "hist":
+            return ("hist",) + tuple(self.classify(st, o) for st, o in zip(case["steps"], obs["steps"]))
         return (peer_text(case).encode("utf-8", "surrogateescape").hex(), case["mode"], case["bg"], case["bp"])
 
     def branches(self, case, obs):
+        if case["k"] == "hist":
+            out = [f"hist:len{len(case['steps'])}"]
+            sts = case["steps"]
+            for a, b in zip(sts, sts[1:]):
+                same_addr = (a.get("fam"), a.get("n")) == (b.get("fam"), b.get("n")) and a["k"] == b["k"] == "addr"
+                same_opts = (a["bg"], a["bp"]) == (b["bg"], b["bp"])
+                if same_addr and same_opts and (a["mode"] == "local") != (b["mode"] == "local"):
+                    out.append("hist:same-addr-same-options-mode-flip" + ("" if peer_text(a) == peer_text(b) else "-other-spelling"))
+                if same_addr and not same_opts: out.append("hist:same-addr-options-toggled")
+            for o in obs["steps"]: out.append("verdict:" + o["verdict"])
+            return out
         out = ["verdict:" + obs["verdict"], "mode:" + ("local" if case["mode"] == "local" else "non-local")]
         if case["k"] == "addr": out.append(f"v{case['fam']}:{case['note']}")
         else: out.append("raw")
         return out
 
     def neighbours(self, case, rng):
+        if case["k"] == "hist":
+            for st in case["steps"]:
+                for m in MODE_NAMES:
+                    if m == st["mode"]: continue
+                    yield {"k": "hist", "steps": [st, dict(st, mode=m)]}
+                    yield {"k": "hist", "steps": [dict(st, mode=m), st]}
+            return
         if case["k"] != "addr": return
         n = int(case["n"]); bits = 32 if case["fam"] == 4 else 128
         for d in (-1, 1, -256, 256, -65536, 65536):
@@ -387,6 +487,7 @@ class Check(PropertyCheck):
 
     def exhaustive(self, tier):
         rng = __import__("common.prng", fromlist=["Rng"]).Rng(0)
+        yield from self._systematic_histories(rng, True)
         for fam in (4, 6):
             for n in self._boundary_addrs(fam):
                 yield from self._expand(fam, n, rng, tier, True)
